@@ -4,13 +4,18 @@ import json, os, sys
 ROOT = os.path.dirname(os.path.dirname(os.path.abspath(__file__)))
 props = [json.loads(l) for l in open(os.path.join(ROOT, "properties.jsonl"))]
 
-TIE = ("Tie to /repo, re-established on every run: the extracted model (OCaml, ExtrOcamlBasic only) and the real crate, rebuilt from the working "
-       "tree with hooks on, execute the same generated histories and must print identical transcripts; an implementation-only oracle "
-       "searches for a failing input whenever a proof obligation or the correspondence breaks.")
+TIE = ("Tie to /repo, re-established on every run, in two ways. (a) Translator: tools/srcfacts re-translates the current text of src/portable.rs "
+       "(all of it: new, update, permute, zipper merge, modular reduction, remainder, data_to_lanes, update_remainder, finalize64/128/256, append, "
+       "checkpoint, from_checkpoint), HashPacket of src/internal.rs, and the SIMD kernels + vector wrapper types of the four SIMD backends into "
+       "deep-embedded abstract syntax (gen/Src*.v); theorems SRC_* (Properties/SourceKernel*.v) prove that the Coq interpreters of that syntax "
+       "compute exactly the hand-written model, function by function, for all states, arguments, slices and build profiles. (b) Correspondence: "
+       "the extracted model (OCaml, ExtrOcamlBasic only) and the real crate, rebuilt from the working tree with hooks on, execute the same "
+       "generated histories and must print identical transcripts; an implementation-only oracle searches for a failing input whenever a "
+       "proof obligation or the correspondence breaks.")
 NOTE = ("Trusted: Coq 8.16.1 kernel incl. vm_compute (no native_compute, no axioms: Print Assumptions of every property theorem is "
         "re-checked to be 'Closed under the global context' on each run), Spec.v as transcription of Google's reference pinned by the "
         "195 published vectors evaluated in Coq, the intrinsic semantics in X86.v/Neon.v/Wasm.v, extraction + OCaml driver, the Rust "
-        "harnesses, the Python orchestrator, rustc/cargo/host CPU/Miri. The theorem is about the hand-written model (DESIGN.md section 7).")
+        "harnesses, the Python orchestrator, rustc/cargo/host CPU/Miri, the syn-based translators (rustlite.rs, veclite.rs) and the RustLite / VecLite semantics (DESIGN.md section 7).")
 
 T = {
  "C01": ("proof", "Theorem C01_portable_is_highwayhash (all keys, byte lists, widths, profiles): the model of PortableHash computes Spec.HH. " + TIE +
@@ -63,7 +68,7 @@ for p in props:
         "engine": "coq-model+correspondence",
         "level_claimed": {"category": cat, "text": text, "design_ref": "DESIGN.md section " + ref},
         "level_note": NOTE,
-        "technique": "machine-checked proof in Coq (hand-written executable model, refinement to an abstract logical state, verified bit-blaster) + differential correspondence check against the real crate",
+        "technique": "machine-checked proof in Coq (executable model, refinement to an abstract logical state, verified bit-blaster); the model is tied to the source by a translator (source re-translated to deep-embedded syntax on every run, equality with the model proved) and by a differential correspondence check against the real crate",
     })
 hooks_commits = []
 hp = os.path.join(ROOT, "hooks_commits.txt")
